@@ -186,9 +186,11 @@ def _build_call(cfg, prob, log):
 
 
 def _exc_class(o):
+    import re
     msg = str(o.exc).strip().split("\n")[0]
     # stable stem: drop numbers / shapes
-    stem = "".join(ch for ch in msg[:60] if not ch.isdigit())
+    stem = re.sub(r"\[[^\]]*\]", "[..]", msg)
+    stem = re.sub(r"[0-9]+", "#", stem)[:60]
     return "exception:%s:%s" % (type(o.exc).__name__, stem.strip())
 
 
